@@ -8,9 +8,9 @@ import (
 type pathState struct {
 	Cells map[*ssa.Alloc]ssa.Value // last value stored into each local cell along this path
 	Path  []*ssa.BasicBlock
-	Calls []ssa.CallInstruction // calls executed along the path (in order)
+	Calls []ssa.CallInstruction    // calls executed along the path (in order)
 	Havoc map[*ssa.BasicBlock]bool // loop headers re-entered through a back-edge: their phis are opaque
-	Vals  map[ssa.Value]int64       // values fixed by the abstract class under evaluation (shared, read-only)
+	Vals  map[ssa.Value]int64      // values fixed by the abstract class under evaluation (shared, read-only)
 	// Gen counts the back-edges taken so far; BlockGen records the generation in which each block was last entered.
 	// A value defined inside a loop denotes a different run-time value in every iteration: terms carry the
 	// generation of their defining block so that facts about iteration 1 never constrain iteration 2.
@@ -47,6 +47,16 @@ type pathState struct {
 	FVer    map[string]int
 	LoadVer map[*ssa.UnOp]int
 	FLast   map[string]ssa.Value
+	// A helper walked in place more than once on a path: the values of its second, third … instance carry the instance
+	// number in their names (InlineCount per function, BlockInst per block of the instance being walked), so that what was
+	// established about the first call's result is not taken for a fact about the second's.
+	InlineCount map[*ssa.Function]int
+	BlockInst   map[*ssa.BasicBlock]int
+	// RetInst: for each finished inlined call, the instance numbers its helper's blocks had when it returned (copied on
+	// write; shared between clones).
+	RetInst map[*ssa.Call]map[*ssa.BasicBlock]int
+	// ACells (TabOpts.ArrayCells): element of a local array at a known index → the term last stored there.
+	ACells map[string]string
 }
 
 type deferRec struct {
@@ -113,7 +123,26 @@ func (ps *pathState) clone() *pathState {
 	if len(ps.Defers) > 0 {
 		n.Defers = append([]deferRec(nil), ps.Defers...)
 	}
+	n.RetInst = ps.RetInst
+	if len(ps.ACells) > 0 {
+		n.ACells = make(map[string]string, len(ps.ACells))
+		for k, v := range ps.ACells {
+			n.ACells[k] = v
+		}
+	}
 	n.InstN = ps.InstN
+	if len(ps.InlineCount) > 0 {
+		n.InlineCount = make(map[*ssa.Function]int, len(ps.InlineCount))
+		for k, v := range ps.InlineCount {
+			n.InlineCount[k] = v
+		}
+	}
+	if len(ps.BlockInst) > 0 {
+		n.BlockInst = make(map[*ssa.BasicBlock]int, len(ps.BlockInst))
+		for k, v := range ps.BlockInst {
+			n.BlockInst[k] = v
+		}
+	}
 	if len(ps.FVer) > 0 {
 		n.FVer = make(map[string]int, len(ps.FVer))
 		for k, v := range ps.FVer {
@@ -325,9 +354,9 @@ type pathVisitor struct {
 	// OnBackEdge is called when the path would re-enter a block already on it (a loop back-edge); the path is cut.
 	OnBackEdge func(from, to *ssa.BasicBlock, ps *pathState)
 	// OnEdge is called with the (already cloned) state of the successor path; returning false prunes that edge.
-	OnEdge func(from *ssa.BasicBlock, succIdx int, next *pathState) bool
-	Limit  int
-	n      int
+	OnEdge   func(from *ssa.BasicBlock, succIdx int, next *pathState) bool
+	Limit    int
+	n        int
 	Overflow bool
 }
 
@@ -400,17 +429,21 @@ func (pv *pathVisitor) walk(b *ssa.BasicBlock, idx int, ps *pathState) {
 
 // genOf returns the generation suffix for a value defined by an instruction ("" outside re-entered loops).
 func (ps *pathState) genOf(v ssa.Value) string {
-	if ps == nil || ps.Gen == 0 {
+	if ps == nil || (ps.Gen == 0 && len(ps.BlockInst) == 0) {
 		return ""
 	}
 	in, ok := v.(ssa.Instruction)
 	if !ok || in.Block() == nil {
 		return ""
 	}
-	if g := ps.BlockGen[in.Block()]; g > 0 {
-		return "~" + itoa(g)
+	s := ""
+	if g := ps.BlockGen[in.Block()]; g > 0 && ps.Gen > 0 {
+		s = "~" + itoa(g)
 	}
-	return ""
+	if k := ps.BlockInst[in.Block()]; k > 1 {
+		s += "^" + itoa(k)
+	}
+	return s
 }
 
 func itoa(n int) string {
@@ -485,7 +518,6 @@ func (ps *pathState) FieldConst(ptr ssa.Value, field string) (int64, bool) {
 	return evalInt(v, ps)
 }
 
-
 // structLitField: the value stored into field number `field` of the local struct a before it is loaded whole by ld,
 // when that field is stored exactly once, in ld's block and ahead of it (a composite literal).
 func structLitField(a *ssa.Alloc, field int, ld *ssa.UnOp) (ssa.Value, bool) {
@@ -519,7 +551,6 @@ func structLitField(a *ssa.Alloc, field int, ld *ssa.UnOp) (ssa.Value, bool) {
 	}
 	return nil, false
 }
-
 
 // onlyFieldReads: the fields of local struct a are only ever read through its field addresses (it is written whole).
 func onlyFieldReads(a *ssa.Alloc) bool {
